@@ -431,12 +431,22 @@ vf::Result fcheck(const FCase& cs) {
     auto fail = [&](const std::string& sig, const std::string& what, size_t i) {
         return vf::Result::fail(sig, what + " at op " + std::to_string(i) + " (" + trace + ")");
     };
+    // half of the histories never acknowledge the controller: every 1 -> 0 crossing must still reach the core (timer 0 on int0, timer 1
+    // on int1; the core keeps its interrupts disabled, so a delivered request shows as the line's pending bit)
+    const bool no_ack = !cs.empty() && (cs[0].a >> 20) % 2 == 1;
+    uint64_t acked[2] = {0, 0};
+    if (no_ack) {
+        t.MMIOWrite(0x206, 0x0400);
+        t.MMIOWrite(0x208, 0x0200);
+        vf::klass("facade: controller never acknowledged, delivery observed at the core");
+    }
     for (size_t i = 0; i < cs.size(); ++i) {
         const FOp& op = cs[i];
         const uint16_t base = (uint16_t)(0x20 + 0x10 * op.which);
         model::Timer& T = m[op.which];
         uint64_t irq0[2] = {m[0].irqs, m[1].irqs};
-        t.MMIOWrite(0x202, 0x0600); // acknowledge both timer lines
+        if (!no_ack)
+            t.MMIOWrite(0x202, 0x0600); // acknowledge both timer lines
         switch (op.kind) {
         case 0: {
             uint32_t v = (uint32_t)(op.a % 5 == 0 ? op.a % 0x30000 : op.a % 300);
@@ -486,9 +496,25 @@ vf::Result fcheck(const FCase& cs) {
             if (m[w].mode == model::Timer::FreeRunning && op.kind == 1 && op.which == w && m[w].mu)
                 m[w].counter = counter; // a restart in free-running mode is outside the statement: follow the implementation
             bool irq = (pending >> (w == 0 ? 0xA : 0x9)) & 1;
-            if (irq != (m[w].irqs != irq0[w]))
+            if (!no_ack && irq != (m[w].irqs != irq0[w]))
                 return fail("C15:facade:irq:timer" + std::to_string(w), "timer " + std::to_string(w) + (irq ? " raised its interrupt although its counter did not go from 1 to 0"
                                                                                                            : " did not raise its interrupt although its counter went from 1 to 0"), i);
+        }
+        if (no_ack) {
+            // requests raised so far become visible to the core at the top of the next cycle: run one more cycle, then look
+            const uint64_t pre[2] = {m[0].irqs, m[1].irqs};
+            t.Run(1);
+            m[0].tick();
+            m[1].tick();
+            auto& regs = t.GetRegisterState();
+            for (unsigned w = 0; w < 2; ++w) {
+                bool delivered = regs.ip[w] != 0, expected = pre[w] != acked[w];
+                if (delivered != expected)
+                    return fail("C15:facade:delivery:timer" + std::to_string(w), "timer " + std::to_string(w) + (expected ? " went from 1 to 0 (its earlier request still unacknowledged in the controller) but the core line was not raised"
+                                                                                                                          : " raised the core line although its counter did not go from 1 to 0"), i);
+                regs.ip[w] = 0;
+                acked[w] = pre[w];
+            }
         }
     }
     vf::klass("facade: timers through MMIO");
